@@ -11,6 +11,7 @@ import (
 	"strings"
 	"sync/atomic"
 	"syscall"
+	"time"
 )
 
 var (
@@ -168,8 +169,20 @@ func Blocked() {
 		runtime.Gosched()
 		return
 	}
-	panic("deadlock: the only running goroutine is blocked on a lock or a sync.Once")
+	// The holder may be a goroutine the code under test started itself (a helper of a parallelised
+	// loop): it will let go in a moment. Only a lock that stays taken is a deadlock.
+	now := time.Now()
+	if now.Sub(blockedLast) > 50*time.Millisecond {
+		blockedSince = now
+	}
+	blockedLast = now
+	if now.Sub(blockedSince) > 20*time.Second {
+		panic("deadlock: the only running goroutine has been blocked on a lock or a sync.Once for 20 s")
+	}
+	runtime.Gosched()
 }
+
+var blockedSince, blockedLast time.Time
 
 // ---------------------------------------------------------------- black box
 
